@@ -386,6 +386,8 @@ func runC20(c *Ctx) {
 	ruleGoCapture(c)
 	ruleNoSharedMutableGlobals(c)
 	rulePanicUnderLock(c)
+	c.R.Rule("R-status-fill-shape", "E1", "the command loop receives once per recipient occurrence: fillRemaining fills every recipient channel to capacity, otherwise the handler blocks forever on a channel no goroutine will write", 2)
+	ruleFillShape(c)
 
 	ruleResultOnEveryExit(c) // "never deadlocks": the command loop blocks on the delivery result
 	ruleGoBounded(c)
